@@ -32,6 +32,11 @@ def sc_to_json(sc):
         if h.get("lifespan") is not None:
             h["lifespan"] = h["lifespan"].total_seconds()
         d["hex"] = h
+    if "mgr" in d:
+        m = dict(d["mgr"])
+        if m.get("life") is not None:
+            m["life"] = m["life"].total_seconds()
+        d["mgr"] = m
     d["stream"] = [list(x) for x in sc["stream"]]
     d["prog"] = [list(x) for x in sc["prog"]]
     return d
@@ -46,6 +51,11 @@ def sc_from_json(d):
         if h.get("lifespan") is not None:
             h["lifespan"] = timedelta(seconds=h["lifespan"])
         sc["hex"] = h
+    if "mgr" in sc:
+        m = dict(sc["mgr"])
+        if m.get("life") is not None:
+            m["life"] = timedelta(seconds=m["life"])
+        sc["mgr"] = m
     sc["stream"] = [tuple(x) for x in d["stream"]]
     sc["prog"] = [tuple(x) for x in d["prog"]]
     return sc
